@@ -229,6 +229,9 @@ for _k, _fs in {"C01": ["Interleave", "ApiCtors", "KeyCheck", "ApiClientProof"],
     STEP_FILES[_k] = STEP_FILES.get(_k, []) + [f for f in _fs if f not in STEP_FILES.get(_k, [])]
 for _k, _fs in {"C06": ["Accessors", "Draws"], "C18": ["Accessors", "Draws"], "C16": ["Draws"], "C17": ["Draws"], "C15": ["KeyCheck"], "C01": ["Digests", "Accessors"], "C02": ["Digests", "Accessors"], "C03": ["Digests", "Accessors", "KeyCheck"], "C19": ["KeyCheck"]}.items():
     STEP_FILES[_k] = STEP_FILES.get(_k, []) + [f for f in _fs if f not in STEP_FILES.get(_k, [])]
+# round 17: C14 (no panics through the authentication API) also obliges the translated bodies of the API entry points it drives
+for _k, _fs in {"C14": ["ApiIntoServer", "ApiServerReconnect", "ApiClientProof", "ApiClientReconnect", "KeyCheck"]}.items():
+    STEP_FILES[_k] = STEP_FILES.get(_k, []) + [f for f in _fs if f not in STEP_FILES.get(_k, [])]
 for _k, _fs in STEP_FILES.items():
     PROPS[_k]["extra_files"] = PROPS[_k]["extra_files"] + ["proofs/steps/%s.v" % f for f in _fs]
 
